@@ -328,7 +328,7 @@ func (g *calcGen) number(depth int) string {
 
 func runCalc(t *testing.T) {
 	H.Rule("calc", "rapid: typed calc() trees of depth ≤4 over + - * /, numbers, lengths of one unit or mixed units (px, em, %, in, rem, vw), nested calc() and parentheses, var() leaves, in margin-top/width (length) and z-index/opacity (number) × {minify-syntax, +whitespace}; oracle: cssref canonical linear form Σ coef·unit·Πopaque of input vs output, equal within 1e-9 relative; non-trivial = output spelling differs")
-	H.SetupRapid("calc", H.N(6000, 400000))
+	H.SetupRapid("calc", H.N(6000, 300000))
 	rapid.Check(t, func(rt *rapid.T) {
 		g := &calcGen{t: rt}
 		depth := rapid.IntRange(1, 4).Draw(rt, "depth")
@@ -426,7 +426,7 @@ func genOpts(rt *rapid.T) cssgen.Opts {
 
 func runCascade(t *testing.T) {
 	H.Rule("cascade", "rapid: style sheets over cssgen's grammar (3+1 tags, 3 classes, 2 ids, attribute forms, :hover/:first-child/:last-child/:active, :focus-visible and an unknown pseudo-class, ::before/::after and vendor pseudo-elements, all combinators, :is/:where/:not/:has, nesting with & in every position, @media incl. range syntax, @supports incl. selector(), @layer named/nested/anonymous/statement, @container, !important, box shorthand/longhand bursts, border-radius, colours in every notation, calc, var, custom properties, duplicates, reused bodies/selectors, junk declarations) × config (minify flags, old/mid engine targets, Supported overrides, loaders css/global-css/local-css); oracle: cssref cascade over 3 DOM trees (24 elements × pseudo-elements) × 5 devices × every admissible subset of the ≤6 relevant features: win_out(E) ∈ {win_in(E′): E′ ⊇ E}, exists whenever win_in(E) exists, equal when E understands all of the input; non-trivial = normalised rule/declaration structure of the output differs from the input")
-	H.SetupRapid("cascade", H.N(2400, 120000))
+	H.SetupRapid("cascade", H.N(2400, 200000))
 	rapid.Check(t, func(rt *rapid.T) {
 		o := genOpts(rt)
 		cfg := genConfig(rt)
